@@ -75,13 +75,14 @@ theorem setDtDt_eq (h : Heap H W) (o : Obj G H W) (d : Int) (ip : Bool) :
     inverted interval raises and leaves the receiver alone in both modes -/
 theorem bufferDt_eq (h : Heap H W) (o : Obj G H W) (d : Int) (ip : Bool) :
     Act.result h o (Src.Mut.bufferDt (Act.enter h o) areaOf secs 0 d ip) = step h o (.bufferDt d) ip := by
-  simp only [Src.Mut.bufferDt, step, applyMut_bufferDt, copy_dtOf, C06Src.init_eq, Act.dt, Act.enter]
   cases hdt : dtOf o with
-  | none => cases ip <;> simp [Act.result, Mut.isApi]
+  | none =>
+    cases ip <;> simp [Src.Mut.bufferDt, Act.result, Act.enter, Act.copyOf, Act.setDt, Act.dt, step, applyMut_bufferDt,
+      copy_dtOf, C06Src.init_eq, Mut.isApi, upd, hdt]
   | some t =>
-    cases hmk : TI.mk? (t.start - d) (t.stop + d) with
-    | error e => cases ip <;> simp [Act.result, Mut.isApi, hmk]
-    | ok t' => cases ip <;> simp [Act.result, Mut.isApi, hmk, Act.copyOf, Act.setDt, upd]
+    cases hmk : TI.mk? (t.start - d) (t.stop + d) <;> cases ip <;>
+      simp [Src.Mut.bufferDt, Act.result, Act.enter, Act.copyOf, Act.setDt, Act.dt, step, applyMut_bufferDt,
+        copy_dtOf, C06Src.init_eq, Mut.isApi, upd, hdt, hmk]
 
 /-- `shape.strip_dt(inplace)` -/
 theorem stripDt_eq (h : Heap H W) (o : Obj G H W) (ip : Bool) :
